@@ -65,3 +65,8 @@ def generate(rng, tier):
 
 def nontrivial(case):
     return any(op in case for op in ("concat", "union", "inter", "comp", "diff", "star", "plus", "opt", "pow", "loop"))
+
+
+def shrink(exe, case, impl, model, msg):
+    import vlib
+    return vlib.shrink_history(exe, ENGINE, case, "regex")
